@@ -167,6 +167,26 @@ void unary_ops() {
   (void)cs.size();
 }
 
+// ---- the same operations with rvalue operands: on the reference tree they bind to the const& overloads; an overload
+// taking Spline&& (added later) is selected - and thereby instantiated and analysed - here
+template <typename T, size_t A, size_t B>
+void rvalue_ops() {
+  Spline<T, A> a = mk<T, A>();
+  Spline<T, B> b = mk<T, B>();
+  Spline<T, B> b1(b), b2(b), b3(b), b4(b), b5(b);
+  Spline<T, A> a1(a), a2(a), a3(a);
+  (void)(a * std::move(b1));
+  (void)(a + std::move(b2));
+  (void)(a - std::move(b3));
+  (void)(std::move(a1) * b);
+  (void)(std::move(a2) + b);
+  (void)(std::move(a3) - b);
+  if constexpr (B <= A) {
+    a += std::move(b4);
+    a -= std::move(b5);
+  }
+}
+
 // ---- binary operations for an ordered pair of orders -----------------------
 template <typename T, size_t A, size_t B>
 void pair_ops() {
@@ -190,6 +210,7 @@ void pair_ops() {
   if constexpr (B < A) {
     a = b;
   }
+  rvalue_ops<T, A, B>();
 }
 
 template <typename T, size_t A, size_t... Bs>
